@@ -714,6 +714,46 @@ pub fn run(tier: &str) -> Run {
             std::process::exit(2);
         },
     );
+    // totality on models edited through the API: every document above with every scalar field of every element overwritten
+    // (all references dangle, numbers and enum items change), in the four integer value modes
+    {
+        let n = odd.len();
+        let eres = par_map(
+            n * 2,
+            &|j| {
+                let Loaded::Ok(mut f, _) = load(&odd[j / 2].1, None, false) else { return Ok(false) };
+                crate::gen_builders::set_mode(if j % 2 == 0 { 0 } else { 3 });
+                let mut k = 8000u32;
+                let r = guard(std::panic::AssertUnwindSafe(|| crate::gen_builders::mutate_Project(&mut f.project, &mut k)));
+                crate::gen_builders::set_mode(0);
+                if r.is_err() {
+                    return Ok(false);
+                }
+                let before = format!("{f:?}");
+                match guard(|| f.check()) {
+                    Err(p) => Err(format!("panic: {p}")),
+                    Ok(_) if format!("{f:?}") != before => Err("modified".to_string()),
+                    Ok(_) => Ok(true),
+                }
+            },
+            &|j| {
+                println!("MACHINERY-ERROR: C11 edited-model totality case hangs: {}", odd[j / 2].0);
+                std::process::exit(2);
+            },
+        );
+        for (j, r) in eres.into_iter().enumerate() {
+            run.evaluations += 1;
+            run.transitions += 2;
+            match r {
+                Ok(true) => run.outcome("totality on edited models: report returned"),
+                Ok(false) => run.outcome("totality on edited models: not applicable"),
+                Err(p) => {
+                    let key = if p.starts_with("panic") { format!("C11/panic {}", vcore::explore::panic_key(p.trim_start_matches("panic: "))) } else { "C11/model-modified".to_string() };
+                    run.violation(key, format!("{} with every field edited: {p}", odd[j / 2].0), json!({"text": odd[j / 2].1, "totality": true, "edited_mode": if j % 2 == 0 { 0 } else { 3 }}));
+                }
+            }
+        }
+    }
     for (i, r) in tres.into_iter().enumerate() {
         run.evaluations += 1;
         run.transitions += 2;
@@ -744,7 +784,15 @@ pub fn replay(v: &Value) -> Result<String, String> {
     }
     if v["totality"].as_bool().unwrap_or(false) {
         return match load(text, None, false) {
-            Loaded::Ok(f, _) => guard(|| f.check()).map(|r| format!("{} entries", r.len())),
+            Loaded::Ok(mut f, _) => {
+                if let Some(m) = v.get("edited_mode").and_then(|m| m.as_u64()) {
+                    crate::gen_builders::set_mode(m as u8);
+                    let mut k = 8000u32;
+                    crate::gen_builders::mutate_Project(&mut f.project, &mut k);
+                    crate::gen_builders::set_mode(0);
+                }
+                guard(|| f.check()).map(|r| format!("{} entries", r.len()))
+            }
             _ => Ok("not loadable".into()),
         };
     }
